@@ -344,14 +344,14 @@ def canon_digest(d):
 
 # -- edits (C10) ---------------------------------------------------------------------------
 POOL = {
-    "name": ["", "*", "+", "9bad", "has space", "fresh-name", "getSectionX", "K1", "k1", "\u212a1", "a\u017f"],
+    "name": ["", "*", "+", "9bad", "has space", "fresh-name", "getSectionX", "K1", "k1", "\u212a1", "a\u017f", "dot.ted"],
     "attribute": ["", "9x", "a-b", "getSectionFoo", "fresh_attr", "k1"],
     "type": ["", "nosuch", "T1", "abs1"],
     "extends": ["", "nosuch", "9bad", "abs1", "t1"],
     "implements": ["", "nosuch", "9bad", "abs1", "t1"],
     "required": ["yes", "no", "true", "YES", ""],
-    "datatype": ["integer", "Integer", "nosuch", "no such", "zcv.dts.wrap", "boo\u212aean"],
-    "keytype": ["identifier", "Basic-Key", "nosuch", "ipaddr-or-hostname"],
+    "datatype": ["integer", "Integer", "nosuch", "no such", "zcv.dts.wrap", "boo\u212aean", ""],
+    "keytype": ["identifier", "Basic-Key", "nosuch", "ipaddr-or-hostname", ""],
     "valuetype": ["string", "nosuch"],
     "handler": ["h1", "9h", "", "H-2", "\u212ah"],
     "default": ["v", ""],
